@@ -73,7 +73,16 @@ fn conv_identstring(m: &syn::Meta) -> Result<String, darling_core::Error> {
     })
 }
 fn conv_callable(m: &syn::Meta) -> Result<String, darling_core::Error> {
-    darling_core::util::Callable::from_meta(m).map(|v| canon_tokens(v.to_token_stream()))
+    darling_core::util::Callable::from_meta(m).and_then(|v| {
+        // the three views of a callable - its tokens, the borrowed expression, the owned expression - are the same tokens
+        let printed = canon_tokens(v.to_token_stream());
+        let borrowed = canon_tokens(AsRef::<syn::Expr>::as_ref(&v).to_token_stream());
+        let owned = canon_tokens(syn::Expr::from(v).to_token_stream());
+        if printed != borrowed || printed != owned {
+            return Err(darling_core::Error::custom(format!("VIEWS-DIFFER printed `{}` as_ref `{}` into `{}`", printed, borrowed, owned)));
+        }
+        Ok(printed)
+    })
 }
 fn direct_none(_: &str) -> Option<String> {
     None
@@ -418,6 +427,7 @@ pub fn check_fragment(ctx: &Ctx, frag: &str, cat: &str) -> Result<(), Fail> {
                 ensure!(is_callable(ungroup(&value)) || is_callable(&value), "c13:callable-accepted", "{} accepted a non-callable", what);
                 ensure!(*g == canon_tokens(ungroup(&value).to_token_stream()) || *g == canon_tokens(value.to_token_stream()), "c13:callable-tokens", "{} prints `{}`", what, g);
             }
+            Err(e) if e.to_string().starts_with("VIEWS-DIFFER") => fail!("c13:callable-views-differ", "{}: {}", what, e),
             Err(e) => {
                 // an invisible group around a callable is allowed to be rejected or looked through; a plain one must be accepted
                 ensure!(!(label == "bare" && is_callable(&value)), "c13:callable-rejected", "{} failed with `{}`", what, e);
